@@ -80,7 +80,13 @@ def r1_acceptance(ctx):
             if p.end != "return" or not (isinstance(p.ret, Agg) and p.ret.variant == "Ok"):
                 bad.append(ctxs + ("does not complete (%s %s)" % (p.end, p.ret),))
                 continue
-            st = [getattr(x, "vid", repr(x)) for x in p.mstate.get("stack", ())]
+            # the populations by what they CONTAIN afterwards (the survivor may be moved, or written into the current population in place)
+            def content(x):
+                items = p.mstate.get("heap", {}).get(getattr(x, "vid", None))
+                if items is None:
+                    return repr(x)
+                return "+".join(getattr(i_.fields[0], "tag", "?")[2:] if isinstance(i_, Agg) and i_.fields else "?" for i_ in items)
+            st = [{"b": "bottom", "cur": "current", "cand": "candidate"}.get(content(x), content(x)) for x in p.mstate.get("stack", ())]
             want = ["bottom", "candidate" if accept else "current"]
             if st != want:
                 bad.append(ctxs + ("leaves the stack %s; the Metropolis rule %s the candidate, expected %s" % (st, "accepts" if accept else "rejects", want),))
